@@ -151,6 +151,10 @@ class _ApiTypeError(TypeError):
     """TypeError that the file API itself is specified to raise (e.g. bytes written to a text file)."""
 
 
+_ApiTypeError.__name__ = _ApiTypeError.__qualname__ = "TypeError"  # code that prints type(e).__name__ sees what CPython shows
+_ApiTypeError.__module__ = "builtins"
+
+
 def _guard(fn):
     """A bug INSIDE the simulator must never look like an ordinary failure of the code under test: anything other than the
     exceptions the seam raises on purpose marks the run as aborted (harness error at the end of the run)."""
@@ -1122,7 +1126,9 @@ class SimFile:
                 raise ValueError(f"illegal newline value: {newline!r}")
             self._newline = newline
         self._closefd = closefd
-        self._wbuf = bytearray()
+        self._wbuf = bytearray()  # the BufferedWriter level (size: knobs.userbuf)
+        self._pending = bytearray()  # the TextIOWrapper level above it (text files only; CPython's chunk size)
+        self._detached = False
         self._rdata = None
         self._rpos = 0
         self.closed = False
@@ -1132,10 +1138,15 @@ class SimFile:
     def _check(self):
         if self._actor.dead:
             raise SimKilled()
+        if self._detached:
+            raise ValueError("underlying buffer has been detached")
         if self.closed:
             raise ValueError("I/O operation on closed file.")
 
     def _flush_raw(self):
+        if self._pending:
+            self._wbuf += self._pending
+            self._pending.clear()
         while self._wbuf:
             chunk = bytes(self._wbuf[: self._sim.knobs.wchunk])
             n = os.write(self._fd, chunk)
@@ -1163,7 +1174,9 @@ class SimFile:
                 seen.add("\r")
             if "\n" in rest:
                 seen.add("\n")
-            self.newlines = None if not seen else (next(iter(seen)) if len(seen) == 1 else tuple(sorted(seen)))
+            if self._newline in (None, ""):  # only universal-newline reads record what they saw; CPython's fixed order
+                order = [x for x in ("\r", "\n", "\r\n") if x in seen]
+                self.newlines = None if not order else (order[0] if len(order) == 1 else tuple(order))
             if self._newline is None:
                 s = s.replace("\r\n", "\n").replace("\r", "\n")
             self._rdata = s
@@ -1191,8 +1204,10 @@ class SimFile:
         self._check()
         if not self._readable:
             raise io.UnsupportedOperation("not readable")
-        if self._wbuf:
+        if self._wbuf or self._pending:
             self._flush_raw()
+        if self._raw:
+            return self.readall() if n is None or n < 0 else self._read_once(n)
         self._fill()
         if n is None or n < 0:
             out = self._rdata[self._rpos:]
@@ -1220,6 +1235,48 @@ class SimFile:
     def readlines(self, hint=-1):
         return list(self)
 
+    @_guard
+    def _read_once(self, n):
+        """RAW file: one read(2) (possibly short), as io.FileIO.read(n)."""
+        self._check()
+        if not self._readable:
+            raise io.UnsupportedOperation("not readable")
+        return os.read(self._fd, n)
+
+    def readall(self):
+        if self._raw:
+            parts = []
+            while True:
+                b = self._read_once(max(self._sim.knobs.rchunk, 1))
+                if not b:
+                    return b"".join(parts)
+                parts.append(b)
+        return self.read()
+
+    def read1(self, n=-1):
+        if not self._binary:
+            raise io.UnsupportedOperation("read1")
+        if self._raw:
+            return self._read_once(n if n is not None and n >= 0 else max(self._sim.knobs.rchunk, 1))
+        return self.read(n)
+
+    def readinto(self, b):
+        if not self._binary:
+            raise io.UnsupportedOperation("readinto")
+        mv = memoryview(b).cast("B")
+        data = self._read_once(len(mv)) if self._raw else self.read(len(mv))
+        mv[: len(data)] = data
+        return len(data)
+
+    readinto1 = readinto
+
+    def peek(self, n=0):
+        if not self._binary or self._raw:
+            raise io.UnsupportedOperation("peek")
+        pos = None
+        self.read(0)
+        return self._rdata[self._rpos:]
+
     def __iter__(self):
         return self
 
@@ -1240,7 +1297,6 @@ class SimFile:
             data = bytes(s)
             n = len(data)
             if self._raw:
-                self._rdata = None
                 return os.write(self._fd, data)
         else:
             if not isinstance(s, str):
@@ -1251,11 +1307,27 @@ class SimFile:
                 s_out = s
             data = s_out.encode(self.encoding, self.errors)
             n = len(s)
-        self._rdata = None
-        self._wbuf += data
+        self._sync_pos_for_write()
+        if self._binary:
+            self._wbuf += data
+        else:
+            self._pending += data
+            if len(self._pending) > min(8192, self._sim.knobs.userbuf):  # TextIOWrapper hands its pending bytes down in chunks (size is a knob)
+                self._wbuf += self._pending
+                self._pending.clear()
         if len(self._wbuf) > self._sim.knobs.userbuf:
             self._flush_raw()
         return n
+
+    def _sync_pos_for_write(self):
+        """A write after a partial read (modes r+/w+) lands at the LOGICAL position, not where read-ahead left the descriptor."""
+        if self._rdata is not None:
+            rest = len(self._rdata) - self._rpos
+            if rest:
+                if not self._binary:
+                    raise HarnessError("SimFile: write after a partial text read is not supported")
+                os.lseek(self._fd, -rest, 1)
+            self._rdata = None
 
     def writelines(self, lines):
         for ln in lines:
@@ -1269,14 +1341,16 @@ class SimFile:
 
     def seek(self, pos, whence=0):
         self._check()
-        if self._wbuf:
+        if self._wbuf or self._pending:
             self._flush_raw()
+        if whence == 1 and self._rdata is not None and self._binary:
+            pos -= len(self._rdata) - self._rpos  # relative to the logical position
         self._rdata = None
         return os.lseek(self._fd, pos, whence)
 
     def tell(self):
         self._check()
-        if self._wbuf:
+        if self._wbuf or self._pending:
             self._flush_raw()
         if self._rdata is not None and not self._binary:
             raise HarnessError("SimFile.tell() after text read not supported")
@@ -1284,7 +1358,7 @@ class SimFile:
 
     def truncate(self, size=None):
         self._check()
-        if self._wbuf:
+        if self._wbuf or self._pending:
             self._flush_raw()
         if size is None:
             size = self.tell()
@@ -1292,11 +1366,14 @@ class SimFile:
         return size
 
     def close(self):
+        if self._detached:
+            raise ValueError("underlying buffer has been detached")
         if self.closed:
             return
         if self._actor.dead:
             self.closed = True
             self._wbuf.clear()
+            self._pending.clear()
             raise SimKilled()
         try:
             if self._writable:
@@ -1304,11 +1381,24 @@ class SimFile:
         finally:
             self.closed = True
             self._wbuf.clear()
+            self._pending.clear()
             if self._closefd:
                 os.close(self._fd)
 
     def detach(self):
-        raise HarnessError("SimFile.detach not supported")
+        """As TextIOWrapper.detach()/BufferedIOBase.detach(): hand out the layer below; this object becomes unusable."""
+        self._check()
+        if self._raw:
+            raise io.UnsupportedOperation("detach")
+        if self._writable:
+            self._flush_raw()
+        lower = SimFile(self._sim, self._actor, self._fd, (self.mode.replace("t", "") if "b" in self.mode else self.mode.replace("t", "") + "b"),
+                        None, None, None, self._closefd, self.name, 0 if self._binary else -1)
+        if self._rdata is not None:
+            raise HarnessError("SimFile.detach() after a read is not supported")
+        self._detached = True
+        self._closefd = False
+        return lower
 
     @property
     def buffer(self):
@@ -1319,7 +1409,18 @@ class SimFile:
 
     @property
     def raw(self):
-        raise HarnessError("SimFile.raw not supported")
+        """The raw layer under a buffered binary file: writes through it go straight to write(2)."""
+        if not self._binary or self._raw:
+            raise AttributeError("raw")
+        return _RawView(self)
+
+    @property
+    def line_buffering(self):
+        return False
+
+    @property
+    def write_through(self):
+        return False
 
     def __enter__(self):
         self._check()
@@ -1331,7 +1432,7 @@ class SimFile:
 
     def __del__(self):
         try:
-            if self.closed or self._actor.dead or self._actor.done:
+            if self.closed or self._detached or self._actor.dead or self._actor.done:
                 return
             if getattr(_tls, "actor", None) is not self._actor or getattr(_tls, "harness", 0):
                 return
@@ -1346,22 +1447,189 @@ class _BufferView:
         self._f = f
 
     def write(self, b):
-        self._f._check()
+        """Goes to the buffered-writer level directly: text still pending in the TextIOWrapper level comes AFTER it (as in CPython)."""
+        f = self._f
+        f._check()
         data = bytes(b)
-        self._f._rdata = None
-        self._f._wbuf += data
-        if len(self._f._wbuf) > self._f._sim.knobs.userbuf:
-            self._f._flush_raw()
+        f._rdata = None
+        f._wbuf += data
+        if len(f._wbuf) > f._sim.knobs.userbuf:
+            self._flush_lower()
         return len(data)
 
+    def _flush_lower(self):
+        f = self._f
+        while f._wbuf:
+            n = os.write(f._fd, bytes(f._wbuf[: f._sim.knobs.wchunk]))
+            del f._wbuf[:n]
+
     def flush(self):
-        self._f.flush()
+        self._f._check()
+        self._flush_lower()
 
     def fileno(self):
         return self._f.fileno()
 
     def read(self, n=-1):
-        raise HarnessError("SimFile.buffer.read not supported")
+        f = self._f
+        f._check()
+        if f._rdata is not None:
+            raise HarnessError("mixing reads of a text SimFile and of its .buffer is not supported")
+        if f._wbuf or f._pending:
+            f._flush_raw()
+        parts, want = [], (None if n is None or n < 0 else n)
+        while want is None or want > 0:
+            b = os.read(f._fd, f._sim.knobs.rchunk if want is None else min(want, f._sim.knobs.rchunk))
+            if not b:
+                break
+            parts.append(b)
+            if want is not None:
+                want -= len(b)
+        return b"".join(parts)
+
+    read1 = read
+
+    def readinto(self, b):
+        mv = memoryview(b).cast("B")
+        data = self.read(len(mv))
+        mv[: len(data)] = data
+        return len(data)
+
+    def readable(self):
+        return self._f.readable()
+
+    def writable(self):
+        return self._f.writable()
+
+    def seekable(self):
+        return True
+
+    def seek(self, pos, whence=0):
+        return self._f.seek(pos, whence)
+
+    def tell(self):
+        f = self._f
+        f._check()
+        if f._wbuf or f._pending:
+            f._flush_raw()
+        return os.lseek(f._fd, 0, 1)
+
+    def close(self):
+        self._f.close()
+
+    @property
+    def closed(self):
+        return self._f.closed
+
+    @property
+    def name(self):
+        return self._f.name
+
+    @name.setter
+    def name(self, v):  # tempfile.NamedTemporaryFile does this
+        self._f.name = v
+
+    @property
+    def mode(self):
+        return self._f.mode.replace("t", "") + ("" if "b" in self._f.mode else "b")
+
+    @property
+    def raw(self):
+        return _RawView(self._f)
+
+
+class _RawView:
+    """The raw (unbuffered) layer of a buffered SimFile: one write(2)/read(2) per call, the buffer above is flushed first."""
+
+    def __init__(self, f):
+        self._f = f
+
+    def write(self, b):
+        f = self._f
+        f._check()
+        f._rdata = None
+        return os.write(f._fd, bytes(b))  # what sits in the buffers above is written later, as in CPython
+
+    def read(self, n=-1):
+        f = self._f
+        f._check()
+        if f._rdata is not None:
+            raise HarnessError("mixing reads of a buffered SimFile and of its .raw is not supported")
+        if n is None or n < 0:
+            return self.readall()
+        return os.read(f._fd, n)
+
+    def readall(self):
+        parts = []
+        while True:
+            b = os.read(self._f._fd, max(self._f._sim.knobs.rchunk, 1))
+            if not b:
+                return b"".join(parts)
+            parts.append(b)
+
+    def readinto(self, b):
+        mv = memoryview(b).cast("B")
+        data = self.read(len(mv))
+        mv[: len(data)] = data
+        return len(data)
+
+    def fileno(self):
+        return self._f.fileno()
+
+    def flush(self):
+        pass
+
+    def readable(self):
+        return self._f.readable()
+
+    def writable(self):
+        return self._f.writable()
+
+    def seekable(self):
+        return True
+
+    def seek(self, pos, whence=0):
+        return self._f.seek(pos, whence)
+
+    def tell(self):
+        return os.lseek(self._f._fd, 0, 1)
+
+    def close(self):
+        self._f.close()
+
+    @property
+    def closed(self):
+        return self._f.closed
+
+    @property
+    def name(self):
+        return self._f.name
+
+    @name.setter
+    def name(self, v):
+        self._f.name = v
+
+    @property
+    def mode(self):
+        return self._f.mode
+
+
+class _FileIOMeta(type):
+    def __instancecheck__(cls, obj):
+        return isinstance(obj, _real["io.FileIO"]) or (isinstance(obj, SimFile) and obj._raw)
+
+    def __subclasscheck__(cls, sub):
+        return issubclass(sub, _real["io.FileIO"])
+
+
+class SimFileIO(metaclass=_FileIOMeta):
+    """io.FileIO as seen by actor threads: a RAW SimFile (the C class would call open(2)/write(2) around the seam)."""
+
+    def __new__(cls, file, mode="r", closefd=True, opener=None):
+        if current_actor() is None:
+            return _real["io.FileIO"](file, mode, closefd, opener)
+        m = mode if "b" in mode else mode + "b"
+        return _sim_open(file, m, 0, None, None, None, closefd, opener)
 
 
 _MODE_FLAGS = {"r": os.O_RDONLY, "w": os.O_WRONLY | os.O_CREAT | os.O_TRUNC,
@@ -1393,6 +1661,8 @@ def _sim_open(file, mode="r", buffering=-1, encoding=None, errors=None, newline=
     base = [c for c in mode if c in "rwax"]
     if len(base) != 1:
         raise ValueError(f"invalid mode: {mode!r}")
+    if buffering == 0 and "b" not in mode:
+        raise ValueError("can't have unbuffered text I/O")
     flags = _MODE_FLAGS[base[0]]
     if "+" in mode:
         flags = (flags & ~os.O_ACCMODE) | os.O_RDWR
@@ -1567,6 +1837,8 @@ def install():
         setattr(os, n, _make_os_wrapper(n))
     builtins.open = _sim_open
     io.open = _sim_open
+    _real["io.FileIO"] = io.FileIO
+    io.FileIO = SimFileIO
     _NAMESEQ = _NameSeq(_real["candidate_names"]())
     tempfile._get_candidate_names = _sim_get_candidate_names
     try:
@@ -1590,6 +1862,7 @@ def uninstall():
         setattr(os, n, _real[n])
     builtins.open = _real["io.open"]
     io.open = _real["io.open"]
+    io.FileIO = _real["io.FileIO"]
     tempfile._get_candidate_names = _real["candidate_names"]
     import time as _time
 
